@@ -25,6 +25,17 @@ var alphabets = c06.Alphabets{
 	Bounds: []string{"", "0000", "01", "ff", "ffff", "61", "6162", "62", "0001", "63", "00ff"},
 }
 
+// long clustering columns that differ only in their last byte or only in length (a cache key must
+// cover the whole of pKey ++ cCols, however long)
+var longAlphabets = func() c06.Alphabets {
+	x := strings.Repeat("78", 600)
+	return c06.Alphabets{
+		PKs:    []string{"6161", "6162"},
+		CCs:    []string{"", x + "41", x + "42", x, x[:2*509] + "41", x[:2*509] + "42", x[:2*510], "61"},
+		Bounds: []string{"", "61", x, "79"},
+	}
+}()
+
 type seqCase struct {
 	Kind    string       `json:"kind"` // "seq"
 	History *c06.History `json:"history"`
